@@ -1787,13 +1787,31 @@ macro_rules! vec_impl_vec {
         /// Consuming iterator over this module's vector type.
         // Can't (De)Serialize a ManuallyDrop<T>
         //#[cfg_attr(feature="serde", derive(Serialize, Deserialize))]
-        #[derive(Debug, Hash, PartialEq, Eq)]
         pub struct IntoIter<T> {
             // NOTE: Use a CVec and not $Vec; repr_simd vectors can't monomorphize ManuallyDrop<T>.
             vector: CVec<ManuallyDrop<T>>,
             start: usize,
             end: usize,
         }
+
+        // NOTE: These must only look at the elements that weren't yielded yet
+        // (the other slots were moved out of), so they can't be derived.
+        impl<T: fmt::Debug> fmt::Debug for IntoIter<T> {
+            fn fmt(&self, f: &mut Formatter) -> fmt::Result {
+                f.debug_tuple("IntoIter").field(&&self.vector[self.start .. self.end]).finish()
+            }
+        }
+        impl<T: std::hash::Hash> std::hash::Hash for IntoIter<T> {
+            fn hash<H: std::hash::Hasher>(&self, state: &mut H) {
+                self.vector[self.start .. self.end].hash(state)
+            }
+        }
+        impl<T: PartialEq> PartialEq for IntoIter<T> {
+            fn eq(&self, other: &Self) -> bool {
+                self.vector[self.start .. self.end] == other.vector[other.start .. other.end]
+            }
+        }
+        impl<T: Eq> Eq for IntoIter<T> {}
 
         // NOTE: Be careful to only drop elements that weren't yielded.
         impl<T> Drop for IntoIter<T> {
